@@ -297,7 +297,8 @@ fn generics_text(gens: &[&syn::Generics], extra_lifetimes: &[String], cx: &mut C
                 syn::GenericParam::Type(tp) => {
                     if closures.contains_key(&tp.ident.to_string()) { cx.fire("L3"); continue; }
                     let bs = clean_bounds(&tp.bounds, cx);
-                    if bs.is_empty() { params.push(tp.ident.to_string()); } else { params.push(format!("{}: {}", tp.ident, bs.iter().map(|b| tidy(&b.to_string())).collect::<Vec<_>>().join(" + "))); }
+                    let dflt = match &tp.default { Some(d) => { let mut d = d.clone(); rewrite::map_type(&mut d, cx); format!(" = {}", tidy(&d.to_token_stream().to_string())) } None => String::new() };
+                    if bs.is_empty() { params.push(format!("{}{}", tp.ident, dflt)); } else { params.push(format!("{}: {}{}", tp.ident, bs.iter().map(|b| tidy(&b.to_string())).collect::<Vec<_>>().join(" + "), dflt)); }
                 }
                 syn::GenericParam::Const(c) => params.push(c.to_token_stream().to_string()),
                 syn::GenericParam::Lifetime(_) => {}
@@ -515,6 +516,7 @@ fn emit_fn(cx: &mut Ctx, specs: &mut Specs, em: &mut Emitter, ex: &Extract, file
         gs.iter().flat_map(|g| g.params.iter().filter_map(|p| if let syn::GenericParam::Type(t) = p { Some(t.ident.to_string()) } else { None }).collect::<Vec<_>>()).filter(|n| !cl.contains_key(n)).collect()
     };
     let mut block = f.block.clone();
+    if ex.kind == "stub" || ex.kind == "decl" { block = syn::parse_quote!({}); }   // only the signature and the contract of a stub are used
     rw.visit_block_mut(&mut block);
     let nloops = rw.loops;
     let lifted_closures = std::mem::take(&mut rw.lifted_closures);
@@ -676,7 +678,7 @@ fn emit_lifted(cx: &mut Ctx, specs: &mut Specs, em: &mut Emitter, gens: &[&syn::
         Some(sig) => em.raw(&format!("pub fn {}{}{} -> (r: {}){}", ctor, gtxt_all, positional(sig, lc).trim(), ret_obj, wtxt_all)),
         None if any_typed => {
             // enclosing generics first (they appear in the capture types the spec gives), then one parameter per generic capture
-            let g = gtxt_all.trim().trim_start_matches('<').trim_end_matches('>').to_string();
+            let g = { let t = gtxt_all.trim(); if t.len() >= 2 { t[1..t.len() - 1].to_string() } else { String::new() } };
             let mut all: Vec<String> = if g.is_empty() { vec![] } else { vec![g] }; all.extend(tps.clone());
             em.raw(&format!("pub fn {}<{}>({}) -> (r: {}){}", ctor, all.join(", "), ps.join(", "), ret_obj, wtxt_all));
         }
@@ -725,7 +727,7 @@ fn emit_lifted(cx: &mut Ctx, specs: &mut Specs, em: &mut Emitter, gens: &[&syn::
             params = format!("{}: {}{}{}", c, ty, if params.trim().is_empty() { "" } else { ", " }, params); cx.fire("L1x");
         } }
     }
-    let gtxt_all = if extra_gen.is_empty() { gtxt_all.clone() } else { let g = gtxt_all.trim().trim_start_matches('<').trim_end_matches('>').to_string(); let mut all: Vec<String> = if g.is_empty() { vec![] } else { vec![g] }; all.extend(extra_gen); format!("<{}>", all.join(", ")) };
+    let gtxt_all = if extra_gen.is_empty() { gtxt_all.clone() } else { let g = { let t = gtxt_all.trim(); if t.len() >= 2 { t[1..t.len() - 1].to_string() } else { String::new() } }; let mut all: Vec<String> = if g.is_empty() { vec![] } else { vec![g] }; all.extend(extra_gen); format!("<{}>", all.join(", ")) };
     let ghost = if specs.get(&format!("pure {}", lc.name)).is_some() { String::new() } else { format!("{}Tracked(w): Tracked<&mut World>", if params.trim().is_empty() { "" } else { ", " }) };
     em.raw(&format!("pub fn {}{}({}{}){}{}", lc.name, gtxt_all, params, ghost, match &ret { Some(r) => format!(" -> (r: {})", r), None => String::new() }, wtxt_all));
     if let Some(sp) = specs.get(&format!("fn {}", lc.name)) { em.raw_block(&positional(sp, lc), ""); }
@@ -760,6 +762,7 @@ fn extract_struct(cx: &mut Ctx, specs: &mut Specs, em: &mut Emitter, ex: &Extrac
                 if tuple { em.raw(&format!("pub struct {}{}({}){};", st.ident, g, fl.join(", "), w)); }
                 else if fl.is_empty() { em.raw(&format!("pub struct {}{}{};", st.ident, g, w)); }
                 else { em.raw(&format!("pub struct {}{}{} {{", st.ident, g, w)); for l in &fl { em.raw(l); } em.raw("}"); }
+                let g = { let mut g2 = st.generics.clone(); for p in g2.params.iter_mut() { if let syn::GenericParam::Type(t) = p { t.default = None; t.eq_token = None; } } generics_text(&[&g2], &[], cx).0 };
                 if ex.opt("own").as_deref() == Some("none") {
                     let targs: Vec<String> = st.generics.params.iter().filter_map(|p| match p { syn::GenericParam::Type(t) => Some(t.ident.to_string()), syn::GenericParam::Lifetime(l) => Some(l.lifetime.to_string()), _ => None }).collect();
                     let ta = if targs.is_empty() { String::new() } else { format!("<{}>", targs.join(", ")) };
